@@ -295,22 +295,42 @@ theorem C20_alias :
 
 /-! ### open findings: counterexamples -/
 
-/-- headers of the key columns of the aggregations of an accepted query -/
-def byHeaders (q : List Char) : List String :=
-  match parseChars q with
-  | .accept q => q.ops.flatMap (fun o => match o with
-      | .agg m => m.headers
-      | _ => [])
-  | _ => []
+/-- **Open finding C20/by-header-depends-on-spelling, as a theorem about the code.** The header of
+a `by` key (`sourced_expr`) IS the trimmed source text the key expression consumed … -/
+theorem by_header_is_source_text (env : Env) (i r : List Char) (e e2 : Nat) (h : String) (ex : Expr)
+    (hs : sourcedExpr env i e = .ok (h, ex) r e2) :
+    h = String.ofList (Text.trim (i.take (i.length - r.length))) := by
+  unfold sourcedExpr at hs
+  split at hs
+  · rename_i v r1 e1 h1
+    simp only at hs
+    split at hs
+    · simp only [Res.ok.injEq, Prod.mk.injEq] at hs
+      obtain ⟨⟨ha, _⟩, hb, _⟩ := hs
+      subst hb; exact ha.symm
+    all_goals simp at hs
+  · simp [Res.castErr] at hs
+    split at hs <;> simp_all
 
-/-- **Counterexample (open finding C20/by-header-depends-on-spelling).** The output column of a
-`by` key is its source text: blanks, redundant parentheses or `["k"]` change it. -/
-theorem by_header_counterexample :
-    byHeaders q!"* | json | count by n > 5" = ["n > 5"] ∧
-    byHeaders q!"* | json | count by n>5" = ["n>5"] ∧
-    byHeaders q!"* | json | count by (n > 5)" = ["(n > 5)"] ∧
-    byHeaders q!"* | json | count by [\"k\"]" = ["[\"k\"]"] := by
-  decide
+theorem ofList_ne (a b : List Char) (h : a ≠ b) : String.ofList a ≠ String.ofList b := by
+  intro hh
+  apply h
+  have := congrArg String.toList hh
+  simpa using this
+
+/-- … hence two spellings of one key (`n > 5`, `n>5`, `(n > 5)`, `["k"]` vs `k`) give two different
+output column names: **counterexample to spelling independence of the output**. -/
+theorem by_header_counterexample (env : Env) (i1 r1 i2 r2 : List Char) (e1 e1' e2 e2' : Nat)
+    (h1 h2 : String) (x1 x2 : Expr)
+    (p1 : sourcedExpr env i1 e1 = .ok (h1, x1) r1 e1')
+    (p2 : sourcedExpr env i2 e2 = .ok (h2, x2) r2 e2')
+    (hne : Text.trim (i1.take (i1.length - r1.length)) ≠ Text.trim (i2.take (i2.length - r2.length))) :
+    h1 ≠ h2 := by
+  rw [by_header_is_source_text env i1 r1 e1 e1' h1 x1 p1, by_header_is_source_text env i2 r2 e2 e2' h2 x2 p2]
+  exact ofList_ne _ _ hne
+
+/-- non-vacuity of the hypothesis: the two consumed texts `n > 5` and `n>5` differ after trimming -/
+example : Text.trim q!"n > 5" ≠ Text.trim q!"n>5" := by decide
 
 /-- **Counterexample (open finding C20/identifier-prefix-collides-with-keyword).** -/
 theorem keyword_prefix_counterexample :
